@@ -150,10 +150,11 @@ def oracle_eligible(s):
 class Cmd:
     def __init__(s, k, pieces=(), code=0, console=False, deps=(), restat=False, oo=(), pre='', post='', mid=''):
         s.k, s.pieces, s.code, s.console, s.deps, s.restat, s.oo, s.pre, s.post, s.mid = k, list(pieces), code, console, list(deps), restat, list(oo), pre, post, mid
+        s.burst = 0          # N > 0: after the pieces the command writes N bytes in one fast burst and exits at once (most of it is still in the pipe then)
     def out(s): return 'o%d' % s.k
     def expected(s):
         '''what ninja collects from the command's pipe (stdout and stderr together)'''
-        return b''.join(p for p, _ in s.pieces)
+        return b''.join(p for p, _ in s.pieces) + (b'x' * s.burst + b'\n' if s.burst else b'')
     def expected_direct(s):
         '''console-pool command: it writes to ninja's own stdout (its stderr goes to ninja's stderr)'''
         return b''.join(p for p, fd in s.pieces if fd == 1)
@@ -167,6 +168,7 @@ class Cmd:
             if i == 0 and s.mid: parts.append(s.mid)
             if i % 2 == 0 and len(s.pieces) > 1: parts.append('sleep 0.01')
         if s.post: parts.append(s.post)
+        if s.burst: parts.append("head -c %d /dev/zero | tr '\\000' x; echo" % s.burst)
         if s.code: parts.append('exit %d' % s.code)
         elif not s.restat: parts.append('touch ' + s.out())
         return '; '.join(parts)
@@ -327,6 +329,12 @@ def real_scenarios(rnd, quick):
         cmds.append(Cmd(n, piece_sets(rnd, n, rnd.choice(['silent', 'plain'])), deps=[c.out() for c in cmds]))
         style = rnd.choice(['default', 'default', 'env', 'option', 'quiet'])
         sc.append(('mix%d' % i, cmds, ['-j%d' % rnd.randrange(1, 5), '-k', str(rnd.choice([0, 1, 2]))], style, None))
+    # a burst far larger than one read (and than the pipe buffer) written right before the command exits: shown whole
+    for i in range(2 if quick else 8):
+        cmds = [Cmd(0, piece_sets(rnd, 0, 'plain')), Cmd(1, piece_sets(rnd, 1, rnd.choice(['plain', 'multi'])), deps=['o0'], code=(3 if i % 2 else 0)),
+                Cmd(2, piece_sets(rnd, 2, 'plain'), deps=['o0']), Cmd(3, piece_sets(rnd, 3, 'plain'), deps=['o2'])]
+        cmds[1].burst = rnd.choice([9000, 70000, 150000]); cmds[2].burst = rnd.choice([5000, 100000])
+        sc.append(('burst%d' % i, cmds, ['-j%d' % rnd.choice([1, 3]), '-k', '0'], rnd.choice(['default', 'env']), None))
     # unterminated outputs (the glue pattern)
     for i in range(2 if quick else 6):
         cmds = [Cmd(0, piece_sets(rnd, 0, 'nonl')), Cmd(1, piece_sets(rnd, 1, 'plain'), deps=['o0']),
